@@ -343,7 +343,7 @@ def hybrid(cfg=None, reopen_ok=False):
     add_isohybrid with drawn geometry/partition parameters, then edits that move the boot files."""
     c = cfg if cfg is not None else cfg_st()
     bootfile = add_fp(length=st.sampled_from([2048, 2048, 1024, 68, 4096]), ck=st.just(1), ns=st.sampled_from([7, 1, 3]), d=st.just(0), file=st.just(False))
-    first = add_boot.map(lambda o: dict(o, b=0, j=0, media=0, plat=0, load=4, efi=False))
+    first = st.builds(lambda o, pl: dict(o, b=0, j=0, media=0, plat=pl, load=4, efi=False), add_boot, st.sampled_from([0, 0, 0, 3, 4]))      # (plat is an index: 3 -> platform 1, 4 -> platform 2)
     efifile = add_fp(length=st.sampled_from([5000, 2048, 70000, 1]), ck=st.just(0), ns=st.sampled_from([7, 1]), d=st.just(0), file=st.just(False))
     efiboot = add_boot.map(lambda o: dict(o, b=1, j=0, media=0, efi=True, load=None))
 
@@ -354,7 +354,7 @@ def hybrid(cfg=None, reopen_ok=False):
         return out
     efi_part = st.lists(st.tuples(efifile, efiboot), min_size=0, max_size=2).map(flat)
     pre = st.lists(st.one_of(add_fp(length=SMALL_LEN), add_dir()), min_size=0, max_size=3)
-    body_choices = [add_fp(length=SMALL_LEN), add_fp(length=st.sampled_from([600000, 70000])), rm_file, add_dir(), query, write, force, add_hybrid, rm_hybrid, add_link, hide]
+    body_choices = [add_fp(length=SMALL_LEN), add_fp(length=st.sampled_from([600000, 70000])), rm_file, add_dir(), query, write, force, add_hybrid, rm_hybrid, add_link, hide, rm_boot]
     if reopen_ok:
         body_choices.append(reopen)
     body = st.lists(st.one_of(*body_choices), min_size=0, max_size=8)
